@@ -135,6 +135,23 @@ def run_config(ctx, pydsdl, defs, placement, referenced, workdir, tag):
             direct = set(range(len(defs)))
             read = set(direct)
             call = lambda: pydsdl.read_namespace(base / "tgt", [], allow_unregulated_fixed_port_id=True)  # noqa
+        elif placement == "split":
+            for d in defs:
+                p = base / file_rel("tgt", d)
+                p.parent.mkdir(parents=True, exist_ok=True)
+                p.write_text(def_text(d))
+            if any(defs[i]["kind"] == "svc" for i in referenced):
+                return None
+            rng = random.Random(repr(cfg_key(defs, placement, referenced)))
+            cname = rng.choice(["Aclient", "Zuser", "Bb_user"])
+            refs = ["tgt.%s.%d.%d r%d" % (defs[i]["name"], defs[i]["ver"][0], defs[i]["ver"][1], k) for k, i in enumerate(sorted(referenced))]
+            (base / "tgt" / (cname + ".1.0.dsdl")).write_text("\n".join(refs + ["@extent 8000"]) + "\n")
+            targets = [i for i in range(len(defs)) if i not in referenced]
+            files = [base / file_rel("tgt", defs[i]) for i in targets] + [base / "tgt" / (cname + ".1.0.dsdl")]
+            rng.shuffle(files)
+            direct = set(targets)
+            read = set(targets) | set(referenced)
+            call = lambda: pydsdl.read_files(files, [base / "tgt"], allow_unregulated_fixed_port_id=True)  # noqa
         else:
             for d in defs:
                 p = base / file_rel("lkp", d)
@@ -155,6 +172,10 @@ def run_config(ctx, pydsdl, defs, placement, referenced, workdir, tag):
             if any(defs[i]["kind"] == "svc" for i in referenced):
                 return None
             call = lambda: pydsdl.read_namespace(base / "tgt", [base / "lkp"], allow_unregulated_fixed_port_id=True)  # noqa
+        if placement == "split":
+            # read_files: some definitions are targets, others are only reached as dependencies of a client definition that
+            # sorts before (Aclient) or after (Zuser) them
+            pass
         exp = expected(defs, direct, read)
         ctx.mon("configuration")
         try:
@@ -205,10 +226,14 @@ def run_shard(ctx):
         defs = gen_defs(rng)
         if len(defs) < 2:
             continue
-        placement = "target" if rng.random() < 0.65 else "lookup"
+        placement = rng.choice(["target", "target", "target", "lookup", "lookup", "split", "split"])
         referenced = set()
         if placement == "lookup":
             referenced = {j for j in range(len(defs)) if rng.random() < 0.7}
+        elif placement == "split":
+            referenced = {j for j in range(len(defs)) if rng.random() < 0.5 and defs[j]["kind"] == "msg"}
+            if not referenced or len(referenced) == len(defs):
+                placement, referenced = "target", set()
         try:
             with ctx.watchdog(60):
                 exp = run_config(ctx, pydsdl, defs, placement, referenced, ctx.tmp, i)
